@@ -124,6 +124,7 @@ def body(m, cfg):
     from pint.errors import DimensionalityError
     from symx.arr import sarray
     fn, dt, shape, form = cfg["fn"], cfg["dt"], tuple(cfg["shape"]), cfg["form"]
+    m.dtype_tol(dt)
     cls, ar = CATALOGUE[fn]
     ua = cfg["ua"]
     fa, da = C.fd(ua)
